@@ -6,7 +6,8 @@ for d in /verif/seeded/$pat/; do
   name=$(basename $d); prop=$(python3 -c "import json;print(json.load(open('$d/meta.json'))['property'])")
   wt=/tmp/sweep-$name
   git -C /repo worktree remove --force $wt >/dev/null 2>&1
-  git -C /repo worktree add --detach $wt HEAD >/dev/null 2>&1 || { echo "$name: worktree failed"; continue; }
+  base=$(python3 -c "import json;print(json.load(open('$d/meta.json')).get('base','HEAD'))")
+  git -C /repo worktree add --detach $wt $base >/dev/null 2>&1 || { echo "$name: worktree failed"; continue; }
   if ! git -C $wt apply $d/patch.diff 2>/dev/null; then echo "$name ($prop): PATCH NO LONGER APPLIES"; git -C /repo worktree remove --force $wt; continue; fi
   for seed in ${SWEEP_SEEDS:-0}; do
     out=$(VERIF_SEED=$seed VERIF_REPO=$wt /verif/check $prop quick 2>&1 | grep -v "^KNOWN"); rc=$?
